@@ -176,7 +176,10 @@ impl DocumentBuilder<'_> {
         // type already commits to. Objects can't appear in the
         // interface graph, so no cycle protection is needed.
         let existing_field_signatures = field_signatures_for(&self.object_type_defs, &name);
-        let implements_interfaces = self.additional_implements(&existing_field_signatures, None)?;
+        // Passing the name makes `additional_implements` skip the interfaces that earlier
+        // definitions of this object already implement.
+        let implements_interfaces =
+            self.additional_implements(&existing_field_signatures, Some(&name))?;
         let exclude_fields: IndexSet<Name> = existing_field_signatures
             .keys()
             .map(|k| Name::new(k.clone()))
